@@ -242,6 +242,21 @@ class Mk:
         self.used[name] = v
         return v
 
+    def label(self, name):
+        """an index / tag label whose identity is symbolic: two labels may or may not be the
+        same string -- equality (dict / set lookups inside the real code) is a solver decision
+        and every consistent aliasing pattern is a path"""
+        self.inputs[name] = "label"
+        if self.sym:
+            v = z3.Int(name)
+            return sx.SymLabel(name, v)
+        if name in self.env:
+            val = f"L{int(self.env[name])}"
+        else:
+            val = name
+        self.used[name] = int(val[1:]) if val[1:].isdigit() else val
+        return val
+
     def choice(self, name, options):
         """A finite symbolic choice (forks one path per option)."""
         k = self.int(name, 0, len(options) - 1)
@@ -315,7 +330,11 @@ class Mk:
         if self.sym:
             if not ok:
                 c = sx.Ctx.cur
-                c.violations.append((label + f": {a!r} != {b!r}"[:300], {}))
+                try:
+                    model = sx.model_to_dict(c.model())     # the path's model: replays on this path
+                except sx.Inconclusive:
+                    model = {}
+                c.violations.append((label + f": {a!r} != {b!r}"[:300], model))
             if len(self.samples) < 3:
                 self.samples.append(f"same {label}: {a!r:.100}")
         elif not ok:
@@ -329,7 +348,12 @@ class Mk:
         except excs:
             return True
         if self.sym:
-            sx.Ctx.cur.violations.append((label + ": call was not rejected", {}))
+            c = sx.Ctx.cur
+            try:
+                model = sx.model_to_dict(c.model())
+            except sx.Inconclusive:
+                model = {}
+            c.violations.append((label + ": call was not rejected", model))
         else:
             self.failures.append((label, "call was not rejected"))
         return False
